@@ -96,3 +96,29 @@ def date(h, days):
 
 def days_of(d):
     return d._LocalDate__year_month_day_calendar.days
+
+
+_contract = []
+
+
+def install_plus_days_contract():
+    """plus_days / plus_weeks on DayCalendar dates by contract (C09.plusdays_generic + C01): day number + n, OverflowError outside.
+    Installed by assignment on the class (active in symbolic runs and in concrete replays alike); real dates fall through."""
+    if _contract:
+        return
+    _contract.append(1)
+    from pyoda_time.fields._fixed_length_date_period_field import _FixedLengthDatePeriodField as F
+    real = F.add
+
+    def add(self, local_date, value):
+        ymdc = local_date._LocalDate__year_month_day_calendar
+        if not hasattr(ymdc, "days"):
+            return real(self, local_date, value)
+        cal = local_date.calendar
+        new = ymdc.days + value * self._FixedLengthDatePeriodField__unit_days
+        if not (cal._min_days <= new <= cal._max_days):
+            raise OverflowError("date computation leaves the calendar range")
+        return LocalDate._ctor(year_month_day_calendar=DayYMDC(new, ymdc._calendar_ordinal))
+
+    F.add = add
+    stubs.STUBS_IN_FORCE.append("contract:_FixedLengthDatePeriodField.add on DayCalendar dates = day number + n, OverflowError outside the range (C09)")
